@@ -129,8 +129,9 @@ def havoc_models():
             return [dict(value=res_ok(Buf('vec', _fresh_arr('ct'), bv64(0), ln + bv64(TAG))))]
         ok = fresh('aead_ok', z3.BoolSort())
         good = z3.And(ok, z3.UGE(ln, bv64(TAG)))
-        return [dict(cond=good, value=res_ok(Buf('vec', _fresh_arr('pt'), bv64(0), ln - bv64(TAG)))),
-                dict(cond=z3.Not(good), value=res_err(Opaque('aead::Error')))]
+        pt = _fresh_arr('pt')
+        return [dict(cond=good, value=res_ok(Buf('vec', pt, bv64(0), ln - bv64(TAG))), apply=lambda q: q.ghost.setdefault('aead_vec', []).append(('ok', pt, ln - bv64(TAG)))),
+                dict(cond=z3.Not(good), value=res_err(Opaque('aead::Error')), apply=lambda q: q.ghost.setdefault('aead_vec', []).append(('fail',)))]
 
     # ---- block ciphers (AES-ECB single blocks) ----
     @model(r' as (?:\w+::)*Block(?:Encrypt|Decrypt)>::(?:encrypt_block|decrypt_block)$')
@@ -194,9 +195,11 @@ def havoc_models():
     @model(r' as (?:\w+::)*XofReader>::read$')
     def _xof_read(ex, p, m, a, func, fr):
         s = ex.as_sref(p.st, a[1])
+        xo = _fresh_arr('xof')
 
         def app(q):
-            ex.bytes_fill(q.st, s, _fresh_arr('xof'), bv64(0), s.len)
+            ex.bytes_fill(q.st, s, xo, bv64(0), s.len)
+            q.ghost.setdefault('xof', []).append(('ok', xo, s.len))
         return one(U(), apply=app)
 
     @model(r'^(?:\w+::)*Crc::<u32>::(new|checksum)$')
